@@ -15,6 +15,16 @@ Enumerated space
   D  the representative payloads written to a viewer object-cache (.slc) file in a private temporary directory and
      read back through ``RegionViewerObjectCache`` (cache path hands the normaliser the very same bytes)
 
+  E  decode histories (a decode result must be a function of the payload alone): for every representative p (thorough: also
+     every content variant of B under its enabling flag alone), a *twin* (same bytes, other FullID / LocalID / CRC) and a
+     *shifted* payload (other identity, ANGULAR_VELOCITY and PARENT_ID toggled, so every shared section sits at another offset
+     but carries the same TextureEntry / ExtraParams / NameValue / particle / text bytes), and for each source decoder
+     S in {fast reader, template, normaliser}: r1 = S(p); every mutable member of r1 is deep-mutated in place (lazy members
+     forced first: TE field dicts edited and extended, ExtraParams entries, NameValue list and entries, particle blocks,
+     vectors, text replaced); then every decoder D in {fast, template, normaliser, normaliser-over-cache-file} decodes p, twin
+     and shifted again.  Each history runs in its own forked process (no history can see another's mutations; the witness
+     replays in a fresh process).
+
 A substituted / truncated payload is *well-formed* iff the template decodes it (lazy members forced) and re-encodes it
 to itself; everything else is counted (rejected / non-canonical) and not judged.
 
@@ -31,6 +41,10 @@ Clauses (for every well-formed payload p; t = template.deserialize(p))
                     over PSBlock; missing parent = 0; null OwnerID dropped; ID -> LocalID; Flags dropped)
   network-agree     generated payloads (A, B): normalize_object_update_compressed(block, handle) == the above + UpdateFlags
                     + RegionHandle (the wrapper adds nothing payload-dependent, so it is not repeated per mutation)
+  decode-independent  E: after the in-place edit of an earlier result, D(q) still equals a pristine deep copy of the template's
+                    decoding of q taken before the edit (normaliser: the reference normal form of it), and for the two decoders
+                    template.serialize(D(q)) == q.  site = fast.read:<member> / template:<member> / normalize:<member> /
+                    cache-normalize:<member>, naming the decoder whose later result was wrong
   cache-bytes       D: lookup_object_data(local_id, crc) returns exactly p (so the cache path normalises the same bytes)
 
 PCode values outside the enum (reachable only through byte substitution at offset 20): the fast reader raises
@@ -45,6 +59,7 @@ Deviations from DESIGN, with reasons
 """
 from __future__ import annotations
 
+import copy
 import dataclasses
 import os
 import re
@@ -782,12 +797,221 @@ def check_cache_path(run_or_part, reps) -> None:
         run_or_part.mark_nontrivial(("D", name))
 
 
+# ------------------------------------------------------------------------------------------- E: decode histories
+_HIST: List[Tuple[str, bytes]] = []
+SOURCES = ("fast", "template", "normalize")
+
+
+def _alter(v: Any) -> Any:
+    """A different immutable value of the same kind."""
+    if isinstance(v, bool):
+        return not v
+    if isinstance(v, int):
+        return int(v) + 1
+    if isinstance(v, float):
+        return v + 1.5 if v == v else 0.0
+    if isinstance(v, str):
+        return v + "~edited"
+    if isinstance(v, (bytes, bytearray)):
+        return bytes(b ^ 0xFF for b in v) or b"\x01"
+    if isinstance(v, UUID):
+        return UUID(int=v.int ^ 1)
+    return v
+
+
+def _is_container(v: Any) -> bool:
+    return isinstance(v, (dict, list, TupleCoord, TaggedUnion)) or (dataclasses.is_dataclass(v) and not isinstance(v, type))
+
+
+def scramble(x: Any, memo: Optional[set] = None) -> None:
+    """Deep in-place edit of everything mutable reachable from x (what a consumer of a decode result is free to do)."""
+    memo = set() if memo is None else memo
+    x = force(x)
+    if id(x) in memo or not _is_container(x):
+        return
+    memo.add(id(x))
+    if isinstance(x, dict):
+        for k in list(x.keys()):
+            v = force(x[k])
+            if _is_container(v):
+                scramble(v, memo)
+            else:
+                x[k] = _alter(v)
+        # structural edit: one more entry (for a TE field dict this is a new per-face exception)
+        sample = next((force(v) for v in x.values() if not _is_container(force(v)) and v is not None), 1)
+        try:
+            x[(40, 41)] = sample
+        except Exception:
+            pass
+    elif isinstance(x, list):
+        for i, v in enumerate(list(x)):
+            v = force(v)
+            if _is_container(v):
+                scramble(v, memo)
+            else:
+                x[i] = _alter(v)
+        x.reverse()
+        x.append(x[0] if x else "edited")
+    elif isinstance(x, (TupleCoord, TaggedUnion)) or dataclasses.is_dataclass(x):
+        names = [f.name for f in dataclasses.fields(x)] if dataclasses.is_dataclass(x) else list(type(x).__fields__)
+        for n in names:
+            v = force(getattr(x, n))
+            if _is_container(v):
+                scramble(v, memo)
+            else:
+                try:
+                    setattr(x, n, _alter(v))
+                except Exception:
+                    pass
+
+
+def twin_of(p: bytes) -> bytes:
+    """Same sections byte for byte, another object: FullID, LocalID and CRC differ."""
+    lid, crc = struct.unpack_from("<I", p, 16)[0], struct.unpack_from("<I", p, 22)[0]
+    return U(33).bytes + struct.pack("<I", lid ^ 0x10000) + p[20:22] + struct.pack("<I", crc ^ 0xFFFF) + p[26:]
+
+
+def shifted_of(p: bytes) -> bytes:
+    """Another object whose shared sections (TE, ExtraParams, NameValue, particles, text) carry the same bytes at other offsets."""
+    t = SER.deserialize(None, p)
+    t = {k: copy.deepcopy(force(v)) for k, v in t.items()}
+    fl = int(t["Flags"])
+    for name in ("ANGULAR_VELOCITY", "PARENT_ID"):
+        bit = FLAG_VALUE[name]
+        fl ^= bit
+        for k, v in SECTION_BASE[name].items():
+            t[k] = v if fl & bit else None
+    t["Flags"] = fl
+    t["FullID"], t["ID"], t["CRC"] = U(34), int(t["ID"]) ^ 0x20000, int(t["CRC"]) ^ 0xFF00
+    t["Position"] = Vector3(1.0, 2.0, 3.0)
+    try:
+        return SER.serialize(None, t)
+    except Exception as e:
+        raise HarnessError(f"shifted partner not serialisable: {e!r}")
+
+
+def _decode_with(which: str, q: bytes, cache: Optional[RegionViewerObjectCache] = None) -> Dict[str, Any]:
+    if which == "fast":
+        return FAST.read(q)
+    if which == "template":
+        return SER.deserialize(None, q)
+    if which == "cache-normalize":
+        lid, crc = struct.unpack_from("<I", q, 16)[0], struct.unpack_from("<I", q, 22)[0]
+        data = cache.lookup_object_data(lid, crc)
+        if data is None:
+            raise HarnessError("cache file lost an entry")
+        return objmod.normalize_object_update_compressed_data(data)
+    return objmod.normalize_object_update_compressed_data(q)
+
+
+SITE_PREFIX = {"fast": "fast.read", "template": "template", "normalize": "normalize", "cache-normalize": "cache-normalize"}
+
+
+def run_history(part: Part, label: str, p: bytes, source: str) -> None:
+    targets = [("same", p), ("twin", twin_of(p)), ("shifted", shifted_of(p))]
+    # pristine references, deep-copied so that nothing the decoders may share can reach them
+    refs: Dict[str, Dict[str, Any]] = {}
+    for tname, q in targets:
+        t = SER.deserialize(None, q)
+        refs[tname] = {k: copy.deepcopy(force(v)) for k, v in t.items()}
+        if SER.serialize(None, refs[tname]) != q:
+            raise HarnessError(f"history partner {tname} of {label} is not canonical")
+    with tempfile.TemporaryDirectory(prefix="c13-hist-") as d:
+        path = os.path.join(d, "objects_1000_1002.slc")
+        buf = bytearray(U(40).bytes + struct.pack("<i", len(targets)))
+        for _, q in targets:
+            buf += struct.pack("<IIiiii", struct.unpack_from("<I", q, 16)[0], struct.unpack_from("<I", q, 22)[0], 1, 0, 0, len(q)) + q
+        with open(path, "wb") as fh:
+            fh.write(buf)
+        cache = RegionViewerObjectCache.from_file(path)
+    # step 1 + 2: decode, then edit the result in place
+    r1 = _decode_with(source, p)
+    for k in list(r1):
+        r1[k] = force(r1[k])
+    scramble(r1)
+    part.count("E_histories")
+    # step 3: every decoder, every payload sharing bytes with p
+    for dec in ("fast", "template", "normalize", "cache-normalize"):
+        for tname, q in targets:
+            part.count("evaluations")
+            part.count("E_decodes_after_edit")
+            w = {"kind": "history", "label": label, "hex": p.hex(), "source": source, "decoder": dec, "target": tname}
+            pre = SITE_PREFIX[dec]
+            bad = False
+            try:
+                r = _decode_with(dec, q, cache)
+                for k in list(r):
+                    r[k] = force(r[k])
+            except HarnessError:
+                raise
+            except Exception as e:
+                part.violation("decode-independent", f"{pre}:raises", w,
+                               f"after an in-place edit of {source}({label}) the decoder raised on the {tname} payload: {e!r}")
+                part.outcome(("E", label, source, dec, tname, "raises"))
+                continue
+            ref = refs[tname]
+            exp = ref if dec in ("fast", "template") else ref_normalize(ref)
+            if set(r) != set(exp):
+                part.violation("decode-independent", f"{pre}:keys", w, f"{sorted(set(r) ^ set(exp))}")
+                bad = True
+            for k, ev in exp.items():
+                if k in r:
+                    msg = same_norm(r[k], ev, k)
+                    if msg:
+                        part.violation("decode-independent", f"{pre}:{k}", w,
+                                       f"history: r1 = {source}(p); r1 edited in place; then {dec}({tname} payload) no longer matches the "
+                                       f"wire bytes: {msg}")
+                        bad = True
+            if dec in ("fast", "template"):
+                try:
+                    enc = SER.serialize(None, r)
+                except Exception as e:
+                    enc = repr(e)
+                if enc != q:
+                    part.violation("decode-independent", f"{pre}:reencode", w,
+                                   f"after an in-place edit of {source}({label}), template.serialize({dec}({tname} payload)) != payload")
+                    bad = True
+            part.outcome(("E", label, source, dec, tname, "violation" if bad else "ok"))
+            if not bad:
+                part.mark_nontrivial(("E", label, source, dec, tname))
+
+
+def _work_history(item: Tuple[int, str]):
+    hi, source = item
+    part = Part()
+    label, p = _HIST[hi]
+    run_history(part, label, p, source)
+    if hi == 1 and source == "fast":
+        part.sample({"case": f"E history rep={label} source={source}", "decoders": 4, "targets": 3}, limit=1)
+    return part.dump()
+
+
+def fresh_process_map(fn, items, jobs: int):
+    """Ordered map, one freshly forked process per item: an in-place edit made by one history can never reach another."""
+    import multiprocessing as mp
+    items = list(items)
+    ctx = mp.get_context("fork")
+    with ctx.Pool(max(1, min(jobs, len(items))), maxtasksperchild=1) as pool:
+        return pool.map(fn, items, chunksize=1)
+
+
+def history_inputs(thorough: bool) -> List[Tuple[str, bytes]]:
+    out = [(f"rep/{name}", p) for name, p, _ in representatives()]
+    if thorough:
+        for i, (factor, variant, flagname, ov) in enumerate(factor_table()):
+            flags = FLAG_VALUE[flagname] if flagname else 0
+            p, _ = gen_payload(flags, PCODES[i % len(PCODES)], ov)
+            out.append((f"variant/{factor}/{variant}", p))
+    return out
+
+
 # ------------------------------------------------------------------------------------------------------------ run
 def run(run: Run):
-    global _FACTORS, _REPS, _THOROUGH
+    global _FACTORS, _REPS, _THOROUGH, _HIST
     _THOROUGH = run.tier == "thorough"
     _FACTORS = factor_table()
     _REPS = representatives()
+    _HIST = history_inputs(_THOROUGH)
     # guard: the template and the harness agree on the set of members (a template that gains a member must be looked at)
     known = set(header(tmpls.PCode.PRIMITIVE)) | {"Flags"} | {k for s in SECTION_BASE.values() for k in s}
     tmpl_members = set(SER.TEMPLATE.keys())
@@ -824,8 +1048,12 @@ def run(run: Run):
     for d in pmap(_work_mutate, items, run.jobs):
         run.merge(d)
     check_cache_path(run, _REPS)
+    for d in fresh_process_map(_work_history, [(hi, src) for hi in range(len(_HIST)) for src in SOURCES], run.jobs):
+        run.merge(d)
 
     c = run.counters
+    if c.get("E_histories", 0) != len(_HIST) * len(SOURCES):
+        raise HarnessError("decode histories did not all run")
     if c.get("wellformed", 0) < c.get("A_flag_x_pcode", 0) or c.get("compared", 0) == 0:
         raise HarnessError("vacuous: generated payloads were not judged")
     run.coverage_extra.update(
@@ -839,11 +1067,13 @@ def run(run: Run):
         "legacy and variable particle blocks incl. glow/blend and empty; TextureEntry none/default/exceptions/multi-byte face masks/no "
         "materials; TextureAnim; sound; header extremes, NaN/inf/-0.0, unknown flag bits), each under %s flag combinations that enable its "
         "section; State: %s wire values x 6 PCodes; C: %s single-byte substitutions at every offset, every truncation and 3 one-byte "
-        "extensions of %d representative payloads (%d bytes); D: the representatives through a .slc cache file. distinct_nontrivial = "
+        "extensions of %d representative payloads (%d bytes); D: the representatives through a .slc cache file; E: %d decode histories (%d payloads x 3 source decoders: decode, deep in-place "
+        "edit of the result, then fast / template / normaliser / normaliser-over-cache-file decode the same payload, a twin and a "
+        "shifted payload sharing its section bytes; one forked process per history). distinct_nontrivial = "
         "distinct well-formed (case, flags, pcode | representative, offset, value) inputs on which both decoders were compared"
         % (1 << len(FLAG_LIST), len(PCODES), len(_FACTORS), "all 2^10/2^11" if _THOROUGH else "22-24 covering (alone, all, +1, all-1)",
            "all 256" if _THOROUGH else str(len(STATE_ALPHABET_QUICK)), "all 255" if _THOROUGH else "5",
-           len(_REPS), sum(len(p) for _, p, _ in _REPS)))
+           len(_REPS), sum(len(p) for _, p, _ in _REPS), len(_HIST) * len(SOURCES), len(_HIST)))
     run.assumptions += [
         "domain = payloads the template's own serialize emits from generated dicts, plus single-byte substitutions / truncations / "
         "one-byte extensions of 32 of them; a mutated payload is judged only if the template decodes it and re-encodes it to itself",
@@ -853,7 +1083,10 @@ def run(run: Run):
         "lazy proxies forced, floats bit-exact, dict members in wire order",
         "reference normalisation is a plain-Python restatement of the defaults documented in normalize_object_update_compressed_data "
         "applied to the template's result; an absent Text/TextColor/MediaURL may be b'' or '' (the code writes b'')",
-        "trusted: struct, lazy_object_proxy, the harness's comparison function",
+        "decode histories: depth 3 (decode, edit, decode), one edit pattern that touches every mutable member reachable from the "
+        "result; histories are independent (fresh forked process each); the pristine reference is a deep copy of the template's "
+        "decoding taken before the edit and checked to re-encode to the payload",
+        "trusted: struct, lazy_object_proxy, copy.deepcopy, the harness's comparison function",
     ]
 
 
@@ -862,6 +1095,10 @@ def replay(w):
     if w.get("kind") == "cache":
         reps = [r for r in representatives() if r[0] == w["rep"]]
         check_cache_path(part, reps)
+        return list(part.viol.values())
+    if w.get("kind") == "history":
+        hp = w["hex"] if isinstance(w["hex"], (bytes, bytearray)) else bytes.fromhex(w["hex"])
+        run_history(part, str(w.get("label")), hp, str(w["source"]))
         return list(part.viol.values())
     p = w["hex"] if isinstance(w["hex"], (bytes, bytearray)) else bytes.fromhex(w["hex"])
     tops = [(int(a), str(b)) for a, b in w["tops"]] if w.get("tops") else None
